@@ -4,7 +4,7 @@ EXTENDS Wire, Json, SequencesExt
 CONSTANT CaseLen
 CaseFiles == UNION {[1..k -> Sigma] : k \in 0..CaseLen}
 Cases == {[f |-> ff, m |-> mm, p |-> pp, plain |-> pl, exp |-> ExpMode(ff, mm, pl), impl |-> Out(ff, mm, pp, pl),
-           hasd |-> HasD(ff), dot |-> (pl /\ LeadingDot(ff, mm)), toolong |-> TooLong(ff, mm, pp, pl)] :
+           hasd |-> HasD(ff), dot |-> (KF_LeadingDotPlain /\ pl /\ LeadingDot(ff, mm)), toolong |-> TooLong(ff, mm, pp, pl)] :
             ff \in CaseFiles, mm \in Ms, pp \in Ps, pl \in BOOLEAN}
 ASSUME ndJsonSerialize("c01_cases.ndjson", SetToSeq(Cases))
 ==============================================================================
